@@ -330,3 +330,14 @@ def guard_atoms(guards) -> List[Tuple[ast.AST, bool]]:
     for t, s in guards:
         add(t, s)
     return out
+
+
+def param_default(fn: ast.AST, p: str) -> Optional[ast.AST]:
+    """the value a parameter falls back to when it is None: `if p is None: p = V` (normal form N8c: `p = V if p is None else p`)"""
+    from .pattern import pmatch
+    for st in walk_local(fn):
+        if isinstance(st, ast.Assign) and len(st.targets) == 1 and isinstance(st.targets[0], ast.Name) and st.targets[0].id == p \
+                and pmatch(f"$$v if {p} is None else {p}", st.value) is not None:
+            v = st.value
+            return v.body if norm(v.orelse) == p else v.orelse
+    return None
